@@ -226,7 +226,7 @@ def r1_elementwise(ctx, rule="C19.R1"):
             ctx.decide(table == want[name], rule, key + ":truth-table", f.loc, "truth table %s" % (table,),
                        "Bit%s pushes, for the operand bits (0,0) (0,1) (1,0) (1,1), the values %s; %s is %s"
                        % (name.capitalize(), table, name, want[name]))
-    ctx.require(rule, 4, max_unknown=2)
+    ctx.require(rule, 2, max_unknown=2)
 
 
 def _lin_payload(o, variant, depth=0):
